@@ -36,14 +36,15 @@ def coverage(vals):
 def run(tier, rep):
     wd = vlib.workdir("C05")
     quick = tier == "quick"
-    st = wc.mc("C05", "MC_Wire", {"Large": 1200, "L": 1, "Part": '"c05"'})
+    dense = "FALSE" if quick else "TRUE"
+    st = wc.mc("C05", "MC_Wire", {"Large": 1200, "Dense": dense, "L": 1, "Part": '"c05"'})
     rep.add_mc("MC_Wire/values", st)
-    if st["depth"] != 2 or st["distinct"] < 6000:
+    if st["depth"] != 2 or st["distinct"] < 3000:
         raise vlib.ToolError("vacuity: MC_Wire did not reach the values")
     for large in ([1200] if quick else [1200, 16384]):
         vals = os.path.join(wd, "vals_%d.ndjson" % large)
         trace = os.path.join(wd, "trace_%d.ndjson" % large)
-        g = vlib.tlc_gen("C05", "Gen_Wire", wc.gen_cfg("EmitVals"), {"Large": large, "L": 1}, vals, workers=1)
+        g = vlib.tlc_gen("C05", "Gen_Wire", wc.gen_cfg("EmitVals"), {"Large": large, "Dense": dense, "L": 1, "Quick": "TRUE"}, vals, workers=1)
         rep.add_mc("Gen_Wire/values/%d" % large, g)
         n, kinds, types, hdr, prim, roles = coverage(vals)
         if len(types) != 40 or len(kinds) != FRAME_KINDS or hdr != {"vn", "retry", "initial", "zero_rtt", "handshake", "one_rtt"} \
@@ -53,8 +54,8 @@ def run(tier, rep):
         wc.validate("C05", rep, "values/%d" % large, "c05", vals, trace, hit)
         rep.cov["parts"]["values/%d" % large].update({"values": n, "frame_types": len(types), "frame_kinds": len(kinds)})
     rep.cov["rule"] = ("abstract values enumerated by TLC from WireVals.tla: all 40 frame type codes (28 kinds incl. every ACK/STREAM/MAX_STREAMS/"
-                       "STREAMS_BLOCKED/CONNECTION_CLOSE/DATAGRAM/ADD_ADDRESS/PUNCH_ME_NOW flag variant) with the full product of the 8 boundary "
-                       "varints for frames of <= 3 varint fields, one-factor-at-a-time + diagonal for ACK / CONNECTION_CLOSE / ADD_ADDRESS / STREAM "
+                       "STREAMS_BLOCKED/CONNECTION_CLOSE/DATAGRAM/ADD_ADDRESS/PUNCH_ME_NOW flag variant) with the product of the 8 boundary "
+                       "varints for frames of <= 3 varint fields (quick tier: all pairs for 3 fields; thorough: full product), one-factor-at-a-time + diagonal for ACK / CONNECTION_CLOSE / ADD_ADDRESS / STREAM "
                        "with large data, byte fields of 0/1/63/64/Large bytes; 6 header kinds x cid lengths 0/1/8/20 x token lengths; 10 primitive "
                        "codecs; transport-parameter sets per role (each id alone at every boundary, all ids, all but one).  MC_Wire checks "
                        "Decode(Encode(v)) = v, consumed = written, Len(Encode(v)) = Size(v) <= MaxSize(v) on the spec; every value is then built, "
